@@ -84,29 +84,34 @@ func (tr *transport) handleMessage(r io.Reader) error {
 		return nil
 	}
 
+	verifPoint("reader.frame", id)
 	ch := make(chan *callExchange)
 	select {
 	case tr.pendingFetch <- &pendingFetch{id: id, call: ch}:
 	case <-tr.serveDone:
 		return errAlreadyShutdown // nobody owns the pending calls anymore.
 	}
+	verifPoint("reader.fetch-sent", id)
 	var ex *callExchange
 	select {
 	case ex = <-ch:
 	case <-tr.serveDone:
 		return errAlreadyShutdown
 	}
+	verifPoint("reader.fetch-got", ex)
 	if ex == nil {
 		log.Printf("discard response #%d, type=%d", id, typ)
 		return nil
 	}
 	if ex.typ != typ {
 		log.Printf("response #%d, type %d!=%d", id, typ, ex.typ)
+		verifPoint("reader.mistyped", ex)
 		// The call is no longer pending; fail it rather than strand it.
 		ex.err = fmt.Errorf("response type %d, want %d", typ, ex.typ)
 		ex.done()
 		return nil
 	}
+	verifPoint("reader.complete", ex)
 	defer ex.done()
 
 	if ex.resp != nil {
@@ -158,7 +163,9 @@ func (tr *transport) send(c *callExchange) error {
 }
 
 func (tr *transport) serve() error {
+	defer verifPoint("serve.done", nil)
 	defer close(tr.serveDone)
+	defer verifPoint("serve.swept", nil)
 
 	id := uint64(0)
 	pending := make(map[uint64]*callExchange)
@@ -168,6 +175,7 @@ func (tr *transport) serve() error {
 			x.done()
 		}
 	}()
+	defer verifPoint("serve.exit-begin", nil)
 	readErr := make(chan error, 1)
 
 	go func() { readErr <- tr.serveRead() }()
@@ -178,6 +186,7 @@ func (tr *transport) serve() error {
 		case c := <-tr.calls:
 			c.id = id
 			id++ // increase the id
+			verifPoint("serve.take", c)
 
 			if shutdownCalled {
 				// After the first shutdown is called, no longer send calls
@@ -193,6 +202,7 @@ func (tr *transport) serve() error {
 			}
 
 			if err := tr.send(c); err != nil {
+				verifPoint("serve.send-fail", c)
 				c.err = err
 				c.done()
 				return err
@@ -205,13 +215,16 @@ func (tr *transport) serve() error {
 			}
 
 			pending[c.id] = c
+			verifPoint("serve.pending", c)
 		case fetch := <-tr.pendingFetch:
+			verifPoint("serve.fetch", fetch)
 			c, found := pending[fetch.id]
 			if found {
 				delete(pending, fetch.id)
 			}
 			fetch.call <- c
 		case err := <-readErr:
+			verifPoint("serve.read-err", nil)
 			return err // exit when read routine closes.
 		}
 	}
@@ -243,6 +256,7 @@ func (tr *transport) asyncCall(call *transportCall) error {
 		return errAlreadyShutdown
 	}
 
+	verifPoint("caller.checked", call)
 	ex := newCallExchange(call)
 
 	// Sends to the pipeline.
@@ -254,6 +268,7 @@ func (tr *transport) asyncCall(call *transportCall) error {
 		return errAlreadyShutdown // the serve loop will never pick it up.
 	case tr.calls <- ex:
 	}
+	verifPoint("caller.queued", call)
 	return nil
 }
 
